@@ -22,7 +22,7 @@ def main():
     if args.replay:
         import json
         d = json.load(open(args.replay))
-        if d.get('kind') == 'implementation-raised':
+        if d.get('kind') in ('implementation-raised', 'watchdog'):
             # no input to re-run: re-run the whole check, which either aborts the same way again or gives its verdict
             print(d.get('what'), '\n', d.get('traceback', '')[-2000:])
             ctx = common.Ctx(pid, d.get('tier', 'quick'), int(d.get('seed', 0)))
@@ -34,6 +34,26 @@ def main():
             return 1 if ctx.violations else 0
         return mod.replay(args.replay)
     ctx = common.Ctx(pid, args.tier, seed)
+    # watchdog: a call into the implementation that never returns must give a verdict, not a hung check.  The limits are
+    # 20-50x the normal duration of the slowest check of the tier.
+    import threading
+    limit = float(os.environ.get('VERIF_WATCHDOG_S', '') or (1800 if args.tier == 'quick' else 10800))
+
+    def _expired():
+        import multiprocessing
+        for ch in multiprocessing.active_children():
+            try:
+                ch.terminate()
+            except Exception:
+                pass
+        ctx.violation('watchdog', {'what': 'the check did not finish within %d s: some call into xdoctest does not return (or is slower by orders of magnitude)' % limit,
+                      'theorem_or_correspondence': 'correspondence harness of %s (did not terminate)' % pid}, False)
+        code = common.finish(ctx)
+        sys.stdout.flush()
+        os._exit(code)
+    wd = threading.Timer(limit, _expired)
+    wd.daemon = True
+    wd.start()
     try:
         if not args.no_proof:
             common.proof_step(ctx)
